@@ -13,8 +13,9 @@ func init() {
 			pkgs := c.unitPkgs("u")
 			ff := c.fileFilter("bounder.go", "solid.go", "shapes.go", "metaball.go", "polytope.go", "transform.go",
 				"screw.go", "teardrop.go", "ramp.go", "clamp.go", "gear.go", "height_map.go", "line_join.go", "radial_curve.go", "rect_set.go", "slice.go")
-			c.runUnits("UNIT", pkgs, ff)
-			c.floor("UNIT", 100)
+			_ = ff // the units rule runs over every file of the four geometry packages (silent on all of them today)
+			c.runUnits("UNIT", pkgs, nil)
+			c.floor("UNIT", 200)
 			c.runArgSwap("ARGSWAP", pkgs, nil, func(a, b string) bool { return a == "min" && b == "max" || a == "max" && b == "min" })
 			c.floor("ARGSWAP", 40)
 			c.runAbsorption("ABSORB", append(c.libPkgs()[:3:3], c.fixturePkg("g")), nil)
